@@ -204,3 +204,24 @@ impl<const N: usize> Seek for FaultyFile<N> {
 pub fn stub_format(_args: std::fmt::Arguments<'_>) -> String {
     String::new()
 }
+
+/// Replacement for `std::io::copy` (used by `SectorInit::Zero`): same
+/// contract (read until EOF, write everything, retry on `Interrupted`), but
+/// through a plain 512-byte stack buffer instead of std's `BorrowedBuf`
+/// machinery, which costs the solver gigabytes.
+pub fn stub_io_copy<R: Read + ?Sized, W: Write + ?Sized>(r: &mut R, w: &mut W) -> io::Result<u64> {
+    let mut buf = [0u8; 512];
+    let mut total: u64 = 0;
+    loop {
+        let n = match r.read(&mut buf) {
+            Ok(n) => n,
+            Err(e) if e.kind() == io::ErrorKind::Interrupted => continue,
+            Err(e) => return Err(e),
+        };
+        if n == 0 {
+            return Ok(total);
+        }
+        w.write_all(&buf[..n])?;
+        total += n as u64;
+    }
+}
